@@ -83,6 +83,28 @@ Theorem C03_object_values_identity : forall la lb stack k a l,
 Proof. exact object_values_thm. Qed.
 Print Assumptions C03_object_values_identity.
 
+(* Errors (and, by C03_any, zap.Any on a []error): for EVERY slice of errors -- nil elements, plain
+   errors, fmt.Formatter errors with a %+v form of their own, error groups of any depth, nil pointers
+   whose Error method cannot be called, Error methods that panic -- the array encoder receives, in
+   order, nothing for a nil element and otherwise one object holding EXACTLY the calls that
+   zap.Error(errs[i]) makes for that very element ([as_error]): the same representation as the typed
+   constructor of the element, errorVerbose / errorCauses / "<nil>" included.  (C03_roundtrip states
+   the delivery through [expected]; this is the direct, relational form.) *)
+Theorem C03_errors_elementwise : forall la lb stack k a l, forallb (in_typeb (TIface IError)) l = true ->
+  exists f cs, construct T ctor_fuel la stack ($"Errors") k (VSlice a l) = Some f /\
+               error_elems la lb l = Some cs /\
+               addto T (addto_fuel (VSlice a l)) lb f = Some [(($"AddArray"), k, VCalls cs)].
+Proof. exact errors_thm. Qed.
+Print Assumptions C03_errors_elementwise.
+
+(* What encodeError does with an error is, for EVERY error (any message, Formatter or not, groups of
+   any depth with nil / nil-pointer / panicking members anywhere) and every key, the specified
+   delivery of that error ([exp_err], written against what the error exposes), failure included. *)
+Theorem C03_error_delivery : forall e k,
+  exp_err k e = (norm_calls (fst (enc_error k e)), snd (enc_error k e)).
+Proof. exact norm_enc_error. Qed.
+Print Assumptions C03_error_delivery.
+
 (* Dict / dictField: an object holding, in order, what each member adds; panics iff a member does *)
 Theorem C03_dict : forall nm, nm = $"Dict" \/ nm = $"dictField" -> forall la lb stack k a l,
   construct T ctor_fuel la stack nm k (VSlice a l) = Some (dict_field k (VSlice a l)) /\
@@ -185,7 +207,7 @@ Example C03_example_nil_pointer :
 Proof. vm_compute. reflexivity. Qed.
 (* two elements with the same content are still delivered as two different addresses *)
 Example C03_example_object_values_addresses :
-  let o := VOpq {| oty := 5; oaddr := 0; ocontent := 2; ocmp := true; oself := true; ostr := []; oerr := [] |} in
+  let o := VOpq {| oty := 5; oaddr := 0; ocontent := 2; ocmp := true; oself := true; ostr := []; oerr := eplain [] |} in
   option_map snd (deliver 1 1 [] ($"ObjectValues") [x6b] (VSlice 7 [o; o])) =
     Some [(($"AddArray"), [x6b], VCalls [(($"AppendObject"), [], VRef 7 0 o); (($"AppendObject"), [], VRef 7 1 o)])].
 Proof. vm_compute. reflexivity. Qed.
@@ -220,6 +242,33 @@ Proof. vm_compute. split; reflexivity. Qed.
 Example C03_example_wf_ambient :
   wf (SL [SZ 0; SB ($"Time"); SB [x6b]; SL [SZ 8; SZ 1700000000123456789; SZ 7]; SB []; SL [SZ 7; SZ 0]]) = true.
 Proof. vm_compute. reflexivity. Qed.
+
+(* errors carry more than Error(): a fmt.Formatter element of zap.Errors keeps its %+v form ... *)
+Definition rich_err : val :=
+  VOpq {| oty := 30; oaddr := 0; ocontent := 2; ocmp := true; oself := true; ostr := [];
+          oerr := EMsg ($"rich") (Some ($"rich+stack")) None |}.
+Example C03_example_errors_keeps_verbose :
+  option_map snd (deliver 1 1 [] ($"Errors") [x6b] (VSlice 7 [VNil; rich_err])) =
+    Some [(($"AddArray"), [x6b], VCalls [(($"AppendObject"), [], VCalls
+            [(($"AddString"), ($"error"), VStr ($"rich")); (($"AddString"), ($"errorVerbose"), VStr ($"rich+stack"))])])].
+Proof. vm_compute. reflexivity. Qed.
+(* ... a group its members (nil members skipped, a nil pointer as "<nil>", members of members) ... *)
+Example C03_example_error_group :
+  error_calls [x6b] (EMsg ($"2 errors") (Some ($"verbose")) (Some [Some (eplain ($"a")); None; Some ENilPanic;
+                                                                 Some (EMsg ($"g") None (Some []))])) =
+    [(($"AddString"), [x6b], VStr ($"2 errors"));
+     (($"AddArray"), ($"kCauses"), VCalls [
+        (($"AppendObject"), [], VCalls [(($"AddString"), ($"error"), VStr ($"a"))]);
+        (($"AppendObject"), [], VCalls [(($"AddString"), ($"error"), VStr ($"<nil>"))]);
+        (($"AppendObject"), [], VCalls [(($"AddString"), ($"error"), VStr ($"g")); (($"AddArray"), ($"errorCauses"), VCalls [])])])].
+Proof. vm_compute. reflexivity. Qed.
+(* ... and an encoder that is handed something that merely forwards Error() (same message, nothing
+   else) is told apart by the oracle: the case is well-formed and the observation is rejected *)
+Example C03_example_forwarding_wrapper_rejected :
+  let i := SL [SZ 0; SB ($"Errors"); SB [x6b]; sx_of_val (VSlice 7 [rich_err]); SB []; SL [SZ 1; SZ 1]] in
+  let forwarded := [(($"AddArray"), [x6b], VCalls [(($"AppendObject"), [], VCalls [(($"AddString"), ($"error"), VStr ($"rich"))])])] in
+  wf i = true /\ spec i (SL [SZ 0; sx_of_calls forwarded]) = false /\ spec i (model i) = true.
+Proof. vm_compute. repeat split; reflexivity. Qed.
 
 (* wire-level link: on every well-formed case the oracle the driver runs accepts what the model
    observes *)
